@@ -401,7 +401,7 @@ def human_readable_size(x):
     magnitude = int(math.log(abs(x), 10.24))
     if magnitude > 16:
         format_str = "%iP"
-        # denominator_mag = 15
+        illion = 5
     else:
         float_fmt = "%2.1f" if magnitude % 3 == 1 else "%1.2f"
         illion = (magnitude + 1) // 3
